@@ -87,6 +87,16 @@ def polygon_stream(ctx, n):
         eq = call_impl(lambda: (P0 == P1, P0 == P2, P0 == P3, P1 == P0))
         if eq[0] != "ok" or tuple(bool(x) for x in eq[1]) != (True, True, False, True):
             ctx.disagree("C17:eq:polygon", f"polygon {vs} roll={r}", (True, True, False, True), eq[1:3], replay=[str(vs)])
+        if len(vs) >= 4:
+            # the same vertex SET threaded in another cyclic order (two neighbours swapped) is a different polygon
+            j = rng.randrange(len(vs))
+            thr = list(vs)
+            thr[j], thr[(j + 1) % len(vs)] = thr[(j + 1) % len(vs)], thr[j]
+            P4 = g.Polygon(*[g.Point(float(x), float(y)) for x, y in thr])
+            ctx.count("eq:rethreaded")
+            eq4 = call_impl(lambda: (P0 == P4, P4 == P0))
+            if eq4[0] != "ok" or tuple(bool(x) for x in eq4[1]) != (False, False):
+                ctx.disagree("C17:eq:rethreaded", f"polygon {vs} vs the same vertices with {j} and {(j + 1) % len(vs)} swapped", (False, False), eq4[1:3], replay=[str(vs)])
         # embedded in 3-space + isometry applied to the object
         u, v, o = rng.choice(AFFINE3)
         def emb(x, y):
